@@ -84,6 +84,34 @@ pub type VocabTokenizer<Token, Config> = BaseTokenizer<Config, (String, Vocab<To
 pub type CharTokenizer = VocabTokenizer<char, CharTokenizerConfig>;
 //@end
 
+//@unit src/tokenization.rs struct Tokenization
+//@rule derive_drop
+pub struct Tokenization {
+    pub token_ids: Vec<u32>,
+    pub info: TokenizationInfo,
+}
+//@end
+impl Tokenization {
+//@unit src/tokenization.rs fn new impl=^impl\sTokenization$
+    pub fn new(token_ids: Vec<u32>, info: TokenizationInfo) -> (r: Self)
+        ensures r.token_ids == token_ids, r.info == info,
+    {
+        Tokenization { token_ids, info }
+    }
+//@end
+}
+/// A.iter().cloned().chain(B).chain(C.iter().cloned()).collect()
+#[verifier::external_body]
+fn vt_chain3(a: &[u32], b: Vec<u32>, c: &[u32]) -> (r: Vec<u32>)
+    ensures r@ == a@ + b@ + c@,
+{ unimplemented!() }
+#[verifier::external_body]
+pub proof fn axiom_borrow_token<T>(m: Map<T, u32>, k: &T)
+    ensures
+        contains_borrowed_key(m, k) <==> m.contains_key(*k),
+        forall|v: u32| maps_borrowed_key_to_value(m, k, v) <==> m.contains_key(*k) && m[*k] == v,
+{}
+
 // ---------------------------------------------------------------- specification
 /// abstract token: a regular character token or a special token (by spelling)
 pub enum Tk { Token(char), Special(Seq<char>) }
@@ -183,6 +211,158 @@ impl CharTokenizer {
             proof { done = done + 1; }
         }
         (tokens, TokenizationInfo::Empty)
+    }
+//@end
+}
+
+pub open spec fn parts_text(p: Seq<Part>) -> Seq<char>
+    decreases p.len()
+{
+    if p.len() == 0 { Seq::empty() } else { parts_text(p.drop_last()) + (match p.last() { Part::Regular(s) => s, Part::Special(s) => s }) }
+}
+impl<Config, State> BaseTokenizer<Config, State> {
+    pub closed spec fn special(&self) -> Vocab<String> { self.special_vocab }
+    pub closed spec fn prefix(&self) -> Seq<u32> { self.prefix_token_ids@ }
+    pub closed spec fn suffix(&self) -> Seq<u32> { self.suffix_token_ids@ }
+    pub closed spec fn has_pattern(&self) -> bool { self.special_token_pattern.is_some() }
+    pub open spec fn special_key(&self, spelling: Seq<char>) -> String {
+        choose|key: String| key@ == spelling && #[trigger] self.special().fwd().contains_key(key)
+    }
+    pub open spec fn special_id(&self, spelling: Seq<char>) -> Option<u32> {
+        if exists|key: String| key@ == spelling && #[trigger] self.special().fwd().contains_key(key) {
+            Some(self.special().fwd()[self.special_key(spelling)])
+        } else { None }
+    }
+    /// Assumed contract of `split_input` (regex split over the escaped special-token spellings), as in c01_byte.rs
+    pub open spec fn split_ok(&self, s: Seq<char>, ignore: bool, p: Seq<Part>) -> bool {
+        &&& parts_text(p) == s
+        &&& forall|k: int| 0 <= k < p.len() ==> (match #[trigger] p[k] { Part::Special(x) => self.special_id(x).is_some(), Part::Regular(_) => true })
+        &&& (ignore || !self.has_pattern() ==> p == seq![Part::Regular(s)])
+    }
+    #[verifier::external_body]
+    fn split_input<'a>(&self, s: &'a str, ignore_special_tokens: bool) -> (r: Vec<TokenInput<'a>>)
+        ensures self.split_ok(s@, ignore_special_tokens, r@.map(|k: int, t: TokenInput| part_of(t))),
+    { unimplemented!() }
+
+//@unit src/tokenization.rs fn prefix_token_ids impl=^impl<Config,State>BaseTokenize\sfor\sBaseTokenizer
+    fn prefix_token_ids(&self) -> (r: &[u32])
+        ensures r@ == self.prefix(),
+    {
+        &self.prefix_token_ids
+    }
+//@end
+//@unit src/tokenization.rs fn suffix_token_ids impl=^impl<Config,State>BaseTokenize\sfor\sBaseTokenizer
+    fn suffix_token_ids(&self) -> (r: &[u32])
+        ensures r@ == self.suffix(),
+    {
+        &self.suffix_token_ids
+    }
+//@end
+//@unit src/tokenization.rs fn add_prefix_and_suffix
+//@rule R6_chain3
+    fn add_prefix_and_suffix(&self, token_ids: Vec<u32>) -> (r: Vec<u32>)
+        ensures r@ == self.prefix() + token_ids@ + self.suffix(),
+    {
+        vt_chain3(self.prefix_token_ids(), token_ids, self.suffix_token_ids())
+    }
+//@end
+}
+
+impl CharTokenizer {
+    pub closed spec fn regular(&self) -> Vocab<char> { self.state.1 }
+    pub closed spec fn unk_string(&self) -> String { self.state.0 }
+    /// part of the representation invariant (established by new_vocab_tokenizer: the unknown token is pushed into the special tokens)
+    pub open spec fn wf_unk(&self) -> bool { self.special().fwd().contains_key(self.unk_string()) }
+    pub open spec fn unk_id(&self) -> u32 { self.special().fwd()[self.unk_string()] }
+    /// id of one abstract token: its vocabulary id, or the unknown id when it is outside the alphabet / not a special token
+    pub open spec fn id_of(&self, t: Tk) -> u32 {
+        match t {
+            Tk::Token(c) => if self.regular().fwd().contains_key(c) { self.regular().fwd()[c] } else { self.unk_id() },
+            Tk::Special(x) => match self.special_id(x) { Some(id) => id, None => self.unk_id() },
+        }
+    }
+
+//@unit src/tokenization.rs fn unk_token_id
+    pub fn unk_token_id(&self) -> (r: u32)
+        requires self.wf_unk(), obeys_key_model::<String>(),
+        ensures r == self.unk_id(),
+    {
+        proof { axiom_borrow_string_string(self.special_vocab.fwd(), &self.state.0); }
+        self.special_vocab
+            .token_to_id(&self.state.0)
+            .expect("unk token is always in special vocab")
+    }
+//@end
+
+//@unit src/tokenization.rs fn tokenize impl=^impl<Token,Config>Tokenize\sfor\sVocabTokenizer<Token,Config>
+//@rule R21
+//@rule closure_annot0(u32)
+//@rule R4
+    fn tokenize(&self, s: &str, ignore_special_tokens: bool) -> (res: VtResult<Tokenization>)
+        requires self.wf_unk(), obeys_key_model::<String>(), obeys_key_model::<char>(),
+        ensures
+            res.is_ok(),
+            // prefix ids, then exactly ONE id per character / special token (unknown id outside the alphabet), then suffix ids
+            exists|p: Seq<Part>| #[trigger] self.split_ok(s@, ignore_special_tokens, p)
+                && res.unwrap().token_ids@ == self.prefix()
+                    + toks_of(p, p.len() as int, self.graphemes(), self.unk()).map(|k: int, t: Tk| self.id_of(t)) + self.suffix(),
+    {
+        let token_input = self.split_input(s, ignore_special_tokens);
+        let ghost parts = token_input@.map(|k: int, t: TokenInput| part_of(t));
+        let (tokens, tokenization_info) = self.process_token_input(token_input);
+        let ghost tks = tokens@.map(|k: int, t: VocabToken<char>| view_tok(t));
+        let mut token_ids = Vec::new();
+        let ghost mut done: int = 0;
+        for token in it: tokens.iter()
+            invariant
+                self.wf_unk(), obeys_key_model::<String>(), obeys_key_model::<char>(),
+                tks == tokens@.map(|k: int, t: VocabToken<char>| view_tok(t)),
+                done == it.index@, 0 <= done <= tokens.len(), it.seq().len() == tokens.len(),
+                forall|k: int| 0 <= k < tokens.len() ==> *#[trigger] it.seq()[k] == tokens[k],
+                token_ids@ == tks.subrange(0, done).map(|k: int, t: Tk| self.id_of(t)),
+        {
+            proof { assert(*token == tokens[done]); }
+            let vt_e = {
+                match token {
+                    VocabToken::Special(token) => self.special_vocab.token_to_id(*token),
+                    VocabToken::Token(token) => self.state.1.token_to_id(token),
+                }
+                .unwrap_or_else(|| -> (q: u32) ensures q == self.unk_id() { self.unk_token_id() })
+                // // }
+            };
+            proof {
+                assert(tks[done] == view_tok(tokens[done]));
+                match tokens[done] {
+                    VocabToken::Special(x) => {
+                        axiom_borrow_string_str(self.special_vocab.fwd(), x);
+                        assert forall|k1: String, k2: String| k1@ == x@ && k2@ == x@ implies k1 == k2 by { axiom_string_ext(k1, k2); }
+                        assert(tks[done] == Tk::Special(x@));
+                        if contains_borrowed_key(self.special_vocab.fwd(), x) {
+                            let key = self.special_key(x@);
+                            assert(key@ == x@ && self.special().fwd().contains_key(key));
+                            assert(self.special_id(x@) == Some(self.special().fwd()[key]));
+                        } else {
+                            assert(self.special_id(x@).is_none());
+                        }
+                    }
+                    VocabToken::Token(c) => {
+                        axiom_borrow_token(self.state.1.fwd(), &c);
+                        assert(tks[done] == Tk::Token(c));
+                    }
+                }
+                assert(vt_e == self.id_of(tks[done]));
+            }
+            token_ids.push(vt_e);
+            proof {
+                assert(tks.subrange(0, done + 1).map(|k: int, t: Tk| self.id_of(t)) =~= tks.subrange(0, done).map(|k: int, t: Tk| self.id_of(t)).push(self.id_of(tks[done])));
+                done = done + 1;
+            }
+        }
+        proof { assert(tks.subrange(0, tks.len() as int) =~= tks); }
+        Ok(Tokenization::new(
+            self.add_prefix_and_suffix(token_ids),
+            tokenization_info,
+        ))
     }
 //@end
 }
